@@ -100,3 +100,59 @@ def run(F, R, ctx):
                    "the interpreter arm for the emittable opcode %s is %s!(): executing it aborts the host" % (
                        op, bl.get("mac") if bl else ""), vm.loc(), nontrivial=False)
     R.floor("C01.a", "emittable opcodes", len(em), 60)
+    digit_tables(F, R, vm, sb)
+
+
+def digit_tables(F, R, vm, sb):
+    """C01.s — numbered specialisations agree with the number they stand for, on both sides."""
+    R.rule("C01.s", "numbered specialisations: in compiler::program a switch on an integer value k that constructs an opcode "
+                    "whose name ends in a digit constructs the one ending in k (READLOCALk, MOVEREADLOCALk, LOADINTk), "
+                    "BoolV(true/false) map to TRUE/FALSE; in the interpreter the arm of an opcode ending in k calls the "
+                    "handler ending in k / pushes the integer k")
+    n = 0
+    for fn in F.find(r"^steel::compiler::program::(specialize_read_local|specialize_constants)$"):
+        dom = fn.dominators()
+        for i, b in enumerate(fn.blocks):
+            if b["k"] != "switch" or b["c"] or b["on"] not in ("u32", "usize", "isize", "u8", "bool"):
+                continue
+            for v, t in b["targets"]:
+                if not v.isdigit():
+                    continue
+                region = [x for x in fn.reachable_from([t], avoid={i}) if t in dom.get(x, ())]
+                for x in region:
+                    for e in fn.blocks[x]["e"]:
+                        if e[0] == "agg" and e[1] == "OpCode":
+                            nm = e[2]
+                            if b["on"] == "bool":
+                                if nm in ("TRUE", "FALSE"):
+                                    n += 1
+                                    R.inst("C01.s", "%s / BoolV(%s) -> %s" % (fn.short(), v, nm), (nm == "TRUE") == (v == "1"),
+                                           "%s maps the boolean constant %s to OpCode::%s" % (fn.short(), "true" if v == "1" else "false", nm),
+                                           fn.loc(e[3]), sample=True)
+                            elif nm[-1].isdigit():
+                                n += 1
+                                R.inst("C01.s", "%s / %s -> %s" % (fn.short(), v, nm), nm[-1] == v,
+                                       "%s specialises the operand %s to OpCode::%s: the program would read local / load "
+                                       "constant %s where it wrote %s" % (fn.short(), v, nm, nm[-1], v), fn.loc(e[3]), sample=True)
+    # bool switch 'otherwise' side (true) is not in targets: handle TRUE via otherwise
+    m = lib.arm_map(vm, sb)
+    dom = vm.dominators()
+    for op, t in sorted(m.items()):
+        if op == "_" or not op[-1].isdigit() or t == m["_"]:
+            continue
+        k = op[-1]
+        region = [x for x in lib.arm_reach(vm, sb, t) if t in dom.get(x, ())]
+        for x in region:
+            blk = vm.blocks[x]
+            if blk["k"] == "call":
+                sn = lib.split_path(blk["callee"])[-1]
+                if blk["callee"].startswith("steel::steel_vm::") and sn[-1].isdigit() and re.search(r"(handler|local|read|move)", sn):
+                    n += 1
+                    R.inst("C01.s", "arm %s calls %s" % (op, sn), sn[-1] == k,
+                           "the interpreter arm for %s calls %s (a handler for index %s)" % (op, sn, sn[-1]), vm.loc(blk["line"]), sample=True)
+            for e in blk["e"]:
+                if e[0] == "agg" and e[1] == "SteelVal" and e[2] == "IntV" and e[4] and e[4][0].startswith("const:") and op.startswith("LOADINT"):
+                    n += 1
+                    R.inst("C01.s", "arm %s pushes %s" % (op, e[4][0]), e[4][0] == "const:" + k,
+                           "the interpreter arm for %s pushes the integer %s" % (op, e[4][0][6:]), vm.loc(e[3]), sample=True)
+    R.floor("C01.s", "numbered specialisation instances", n, 12)
